@@ -60,6 +60,43 @@ type c18Cfg struct {
 	remW, remH    int
 	layout        string
 	ci            *multiboot.FramebufferRGBColorInfo
+	// recolour: the console is handed to the terminal through c18Recolour, which
+	// reports other default colours than the driver's 7/0 and forwards every
+	// other call unchanged, so that the colour paths of the drivers are seen
+	// with colours whose packed bytes differ from each other
+	recolour bool
+	fg, bg   uint8
+}
+
+// c18Recolour is a console whose DefaultColors are generated; everything else
+// is the real driver.
+type c18Recolour struct {
+	console.Device
+	fg, bg uint8
+}
+
+func (c *c18Recolour) DefaultColors() (uint8, uint8) { return c.fg, c.bg }
+
+func (g *c18Cfg) colours() string {
+	if g.recolour {
+		return fmt.Sprintf("fg %d bg %d (default colours overridden)", g.fg, g.bg)
+	}
+	return "console defaults"
+}
+
+// c18PickColours: EGA colours; text mode takes 4 bits each. Background 15 is
+// left out: VgaTextConsole.Write replaces it by the default background, a
+// driver matter that belongs to C19 (colour arguments), see the report.
+func c18PickColours(r *vlib.Rand, g *c18Cfg) {
+	if !r.Chance(1, 2) {
+		return
+	}
+	g.recolour = true
+	g.fg = uint8(r.Intn(16))
+	g.bg = uint8(r.Intn(15))
+	if g.bg == g.fg {
+		g.bg = (g.bg + 1) % 15
+	}
 }
 
 func (g *c18Cfg) memSize() int {
@@ -71,14 +108,14 @@ func (g *c18Cfg) memSize() int {
 
 func (g *c18Cfg) desc() map[string]interface{} {
 	if g.kind == "vga" {
-		return map[string]interface{}{"console": "vga_text", "cols": g.cols, "rows": g.rows}
+		return map[string]interface{}{"console": "vga_text", "cols": g.cols, "rows": g.rows, "terminal_colours": g.colours()}
 	}
-	return map[string]interface{}{"console": "vesa_fb", "cols": g.cols, "rows": g.rows, "font": g.fontName, "width": g.width, "height": g.height,
+	return map[string]interface{}{"console": "vesa_fb", "terminal_colours": g.colours(), "cols": g.cols, "rows": g.rows, "font": g.fontName, "width": g.width, "height": g.height,
 		"bpp": g.bpp, "pitch": g.pitch, "pitch_padding": g.pad, "logo_rows": g.logoH, "right_remainder_px": g.remW, "bottom_remainder_rows": g.remH, "layout": g.layout}
 }
 
 func (g *c18Cfg) fp() vlib.FP {
-	return vlib.NewFP().Str(g.kind).Int(g.cols).Int(g.rows).Str(g.fontName).Int(g.width).Int(g.height).Int(g.bpp).Int(g.pitch).Int(g.logoH).Str(g.layout)
+	return vlib.NewFP().Str(g.kind).Int(g.cols).Int(g.rows).Str(g.fontName).Int(g.width).Int(g.height).Int(g.bpp).Int(g.pitch).Int(g.logoH).Str(g.layout).Str(g.colours())
 }
 
 // c18Logo returns the shipped logo of the given height through the package's
@@ -96,9 +133,11 @@ func c18GenCfg(r *vlib.Rand, thorough bool, maxMem int) *c18Cfg {
 	if r.Chance(2, 7) {
 		g.kind = "vga"
 		g.cols, g.rows = c17Geometry(r, 132, 60)
+		c18PickColours(r, g)
 		return g
 	}
 	g.kind = "fb"
+	defer c18PickColours(r, g)
 	g.fontName = c18FontNames[r.Intn(3)]
 	f := font.FindByName(g.fontName)
 	g.gw, g.gh, g.bpr = int(f.GlyphWidth), int(f.GlyphHeight), int(f.BytesPerRow)
@@ -208,6 +247,8 @@ type c18Screen struct {
 	size int    // bytes of console memory proper
 	font *font.Font
 	pal  color.Palette
+	dfg  uint8 // the terminal's colours (diagnostics)
+	dbg  uint8
 }
 
 type c18Stats struct {
@@ -368,8 +409,8 @@ func (s *c18Screen) where(i int) string {
 // describeCell tries to name what a framebuffer cell shows (diagnostics only).
 func (s *c18Screen) describeCell(col, row int) string {
 	g := s.g
-	fgp, ok1 := c18Pack(g, s.pal, 7)
-	bgp, ok2 := c18Pack(g, s.pal, 0)
+	fgp, ok1 := c18Pack(g, s.pal, s.dfg)
+	bgp, ok2 := c18Pack(g, s.pal, s.dbg)
 	if !ok1 || !ok2 {
 		return "could not be decoded"
 	}
@@ -388,7 +429,7 @@ func (s *c18Screen) describeCell(col, row int) string {
 				isBg = isBg && p[i] == bgp[i]
 			}
 			if !isFg && !isBg {
-				return "holds pixels that are neither default colour"
+				return "holds pixels that are neither of the terminal's two colours"
 			}
 			if isFg {
 				bits[py*g.bpr+px>>3] |= 1 << (7 - uint(px&7))
@@ -398,7 +439,7 @@ func (s *c18Screen) describeCell(col, row int) string {
 	}
 	for ch := 0; ch < 256; ch++ {
 		if string(s.font.Data[ch*len(bits):(ch+1)*len(bits)]) == string(bits) {
-			return fmt.Sprintf("shows the glyph of %q in the default colours", byte(ch))
+			return fmt.Sprintf("shows the glyph of %q in the terminal's colours", byte(ch))
 		}
 	}
 	return "shows no glyph of the font"
@@ -478,12 +519,18 @@ func c18RunCase(c *vlib.Case, run *vlib.Run, tot *c18Totals, arena *vlib.Arena, 
 		c.Violationf("console-setup", "%s", setupErr)
 		return
 	}
-	dfg, dbg := scr.dev.DefaultColors()
+	dev := scr.dev
+	if g.recolour {
+		dev = &c18Recolour{Device: scr.dev, fg: g.fg, bg: g.bg}
+		run.Count("consoles_with_overridden_default_colours", 1)
+	}
+	dfg, dbg := dev.DefaultColors()
+	scr.dfg, scr.dbg = dfg, dbg
 	ref := c17NewRef(g.cols, g.rows, sb, tab, dfg, dbg)
 	vt := NewVT(uint8(tab), uint32(sb))
 	pre := make([]byte, len(scr.mem))
 	copy(pre, scr.mem)
-	if pv, st := vlib.Protect(func() { vt.AttachTo(scr.dev) }); pv != nil {
+	if pv, st := vlib.Protect(func() { vt.AttachTo(dev) }); pv != nil {
 		c.Violation("panic:AttachTo:"+vlib.PanicClass(pv), map[string]interface{}{"panic": fmt.Sprint(pv), "stack": st})
 		return
 	}
@@ -606,7 +653,7 @@ func TestVerifC18(t *testing.T) {
 	run := vlib.Start(t, "C18")
 	defer run.Finish()
 	run.SetRule("case = a shipped console (text mode 1x1..132x60; framebuffer 8/15/16/24/32 bpp, one of the three shipped fonts, shipped logo of 64/96/128 rows or none, width/height with and without a partial glyph remainder, pitch = row bytes + {0,1,3,64}) initialised through its real DriverInit over host memory, the real VT (scrollback {0,1,2,80,..}, tab {0,1,4,8,255,..}) attached, and a history of writes / cursor moves / SetState(active|inactive) from the C17 generator; after every operation the whole console memory is decoded back into cells and compared with the reference viewport (active) or with its previous content (inactive); non-trivial = history in which the active terminal took at least one line feed on the last line (console scroll + clear) and at least one activation had to redraw writes made while inactive; distinct = fingerprint of (console configuration, scrollback, tab, operation list)")
-	run.Assume("framebuffer memory is an mmap'ed host arena handed out by the map seam; VGA DAC port writes are discarded; colour-mask layouts are the usual 5-5-5 / 5-6-5 / 8-8-8 RGB and BGR ones (arbitrary layouts and synthetic fonts belong to C19); the terminal only ever uses the console's default colours")
+	run.Assume("framebuffer memory is an mmap'ed host arena handed out by the map seam; VGA DAC port writes are discarded; colour-mask layouts are the usual 5-5-5 / 5-6-5 / 8-8-8 RGB and BGR ones (arbitrary layouts and synthetic fonts belong to C19); the terminal only ever uses the console's default colours, which are 7 on 0 for both shipped consoles: in half of the cases the console is handed to the terminal through a pass-through wrapper that reports other default colours (EGA 0-15, background 15 excluded), so that cells are also drawn in colours whose packed bytes differ")
 
 	maxMem := 700 << 10
 	if run.Thorough() {
@@ -617,7 +664,7 @@ func TestVerifC18(t *testing.T) {
 	defer console.VerifC18SetSeams(nil, nil)() // remember the real seams now, put them back at the end
 	tot := &c18Totals{bpp: map[int]int{}}
 
-	n := run.N(1200, 80000)
+	n := run.N(900, 60000)
 	run.Cases(n, func(c *vlib.Case) {
 		r := c.R
 		g := c18GenCfg(r.Fork(2), run.Thorough(), maxMem)
